@@ -42,7 +42,10 @@ def param_blind_caches(ctx, modname, only_prefix=None):
                     if isinstance(tg, ast.Attribute) and dotted(tg.value) == "self" and tg.attr in returned:
                         at = origins(fn, n.id, a.value)
                         dep = [p for p in ps[1:] if ("param:" + p) in at]
-                        tested = any(any(isinstance(x, ast.Attribute) and x.attr == tg.attr and dotted(x.value) == "self" for x in ast.walk(t.ast)) for t in cfg.tests())
+                        tested = any(any((isinstance(x, ast.Attribute) and x.attr == tg.attr and dotted(x.value) == "self")
+                                         or (isinstance(x, ast.Call) and isinstance(x.func, ast.Name) and x.func.id in ("getattr", "hasattr") and len(x.args) >= 2
+                                             and isinstance(x.args[1], ast.Constant) and x.args[1].value == tg.attr)
+                                         for x in ast.walk(t.ast)) for t in cfg.tests())
                         if dep and tested:
                             hits.append((mod, fn, tg.attr, dep[0], n))
     return looked, hits
